@@ -25,10 +25,14 @@ DELTAS = [1.0, 1.0, 1.0, 0.5, 2.0, 1.5, 0.25, 3.0]
 COEFS = [1.0, 1.0, 0.0, 0.5, 2.0, 3.0, 0.75]
 
 
+# values for which float32(C(n,2) * delta) / C(n,2) is not float32(delta) for n = 3 or 4 (products and quotients round differently)
+ROUNDING_DELTAS = [0.85, 1.45, 1.7, 1.95, 2.9, 0.35, 0.7, 1.15, 3.4]
+
+
 def delta_values():
     """mostly the round values, sometimes any two-decimal value in [0.1, 4] (not float32-exact: 0.85, 1.45, 2.9, ...)"""
     return st.one_of(st.sampled_from(DELTAS), st.sampled_from(DELTAS), st.sampled_from(DELTAS),
-                     st.integers(10, 400).map(lambda k: k / 100.0))
+                     st.sampled_from(ROUNDING_DELTAS), st.integers(10, 400).map(lambda k: k / 100.0))
 
 
 def dyadic(lo, hi, grid=GRID):
